@@ -181,7 +181,7 @@ class RemovalJudge(hist.Monitor):
         self.dig0 = None
 
     def before(self, eng, op):
-        if op["op"] in ("remove", "remove_protected"):
+        if op["op"] in ("remove", "remove_protected", "remove_many"):
             self.snap0 = snap.api_snapshot(eng.ws)
             self.dig0 = snap.node_digests(snap.raw_snapshot(eng.ws.geoh5))
 
